@@ -160,3 +160,23 @@ def reaching_value(path, upto, name):
                 e.node.target, ast.Name) and e.node.target.id == name:
             val = e.node
     return val
+
+
+def borrow(repo, res, tier, module, rules, prefix):
+    """Run another property's rules and adopt the instances/findings of the given
+    rule ids under `prefix` (e.g. C18.V3 -> C07.B7[C18.V3]).  Used where one
+    mechanism carries two properties; the rule text stays with its owner."""
+    from ..report import Result, Finding
+    tmp = Result(res.prop)
+    module.check(repo, tmp, tier)
+    for i in tmp.instances:
+        if i.rule in rules:
+            i.rule = '%s[%s]' % (prefix, i.rule)
+            res.instances.append(i)
+    for f in tmp.findings:
+        if f.rule in rules:
+            f.rule = '%s[%s]' % (prefix, f.rule)
+            f.prop = res.prop
+            if f.key not in {x.key for x in res.findings}:
+                res.findings.append(f)
+    res.functions |= tmp.functions
